@@ -81,7 +81,7 @@ func msgEffects(fn *ssa.Function) []msgEffect {
 				case *ssa.Call:
 					if strings.HasSuffix(CalleeName(x), ".ReceiveToHistory") {
 						for _, a := range x.Call.Args {
-							if a == net {
+							if a == net || Desc(a) == Desc(net) {
 								// only when this call lies under the assert's success
 								out = append(out, msgEffect{fn, in, "history", msg, net, at})
 							}
@@ -143,6 +143,13 @@ func checkAdmission(r *Run, rule string, pkgFilter func(rel string) bool) (sites
 		}
 		effs := msgEffects(fn)
 		if len(effs) == 0 {
+			if len(payloadAsserts(fn)) > 0 {
+				if why, ok := exemptReason(fn); ok {
+					r.Ok(rule+".exempt", FnName(fn), fn.Pos(), "exempt: "+why)
+				} else {
+					r.Undecided(rule, FnName(fn), "handler type-asserts a payload but no effect site was recognised; the rule cannot see what it does with the message")
+				}
+			}
 			continue
 		}
 		if why, ok := exemptReason(fn); ok {
